@@ -259,3 +259,25 @@ func loadEngine(verifDir, repoDir string, subs []string, cfg interp.Config) (*in
 	e, err := interp.Load(cfg)
 	return e, s, err
 }
+
+// harnessNamesFromSource lists "func VerifX()" declarations in a harness dir.
+func harnessNamesFromSource(dir string) []string {
+	var out []string
+	ents, _ := os.ReadDir(dir)
+	for _, e := range ents {
+		if !strings.HasSuffix(e.Name(), ".go") {
+			continue
+		}
+		b, _ := os.ReadFile(filepath.Join(dir, e.Name()))
+		for _, line := range strings.Split(string(b), "\n") {
+			if strings.HasPrefix(line, "func Verif") {
+				name := strings.TrimPrefix(line, "func ")
+				if i := strings.Index(name, "("); i > 0 {
+					out = append(out, name[:i])
+				}
+			}
+		}
+	}
+	sort.Strings(out)
+	return out
+}
